@@ -69,6 +69,12 @@ def params_driver(j):
     return {"times": j["times"], "scantime": st}, und
 
 
+def spec_times(impl_params, truth):
+    if isinstance(impl_params, dict) and "times" in impl_params:
+        return impl_params["times"]
+    return truth
+
+
 def call(f, *a, **k):
     try:
         return f(*a, **k)
@@ -189,7 +195,8 @@ class C03(Prop):
                         model[key], u1 = params_driver(rep["params_" + lay])
                         if "Time" in bychan:
                             st, u2 = pval(rep["spec_scantime"])
-                            spec[key] = {"times": bychan["Time"]["spec"]["planes"][0], "scantime": st}
+                            # the property speaks of the scan time only: `times` is judged against the model, not the spec
+                            spec[key] = {"times": spec_times(impl[key], bychan["Time"]["spec"]["planes"][0]), "scantime": st}
                             und = und or u1 or u2
                         else:
                             spec[key] = impl[key]
@@ -219,7 +226,8 @@ class C03(Prop):
                             sp = {"image": img_driver(bychan[ch]["spec"]), "params": {}}
                             if "Time" in bychan:
                                 st, u2 = pval(rep["spec_scantime"])
-                                sp["params"] = {"times": bychan["Time"]["spec"]["planes"][0], "scantime": st}
+                                ip = impl[key].get("params") if isinstance(impl[key], dict) else None
+                                sp["params"] = {"times": spec_times(ip, bychan["Time"]["spec"]["planes"][0]), "scantime": st}
                                 und = und or u2
                             spec[key] = sp
                         else:
